@@ -334,7 +334,63 @@ def run_shard(ctx):
             check_write_time(ctx, TM, tv, {"op": "write-time", "fields": [h, mi, s, us], "off": off, "name": name})
         if off % 131 == 0:
             ctx.sample({"op": "write", "value": repr(v), "text": DT.unconvert(v)})
-    # naive values are refused
+    # opposite signs of the same sub-hour offset in one process, both orders (state carried between calls)
+    for m in range(1 + ctx.shard, 60, ctx.nshards):
+        m2 = (m + 7) % 59 + 1
+        for first, second in ((f"-0.{m:02d}", f"+0.{m:02d}"), (f"+0.{m2:02d}", f"-0.{m2:02d}")):
+            for sp in (first, second, first):
+                text = f"20240315120000.000[{sp}]"
+                check_read_dt(ctx, DT, text, "offset", {"op": "read-dt", "text": text, "notation": "offset"})
+                check_read_time(ctx, TM, f"120000.000[{sp}]", {"op": "read-time", "text": f"120000.000[{sp}]"})
+    # a text valid for ONE of the two types must be refused by the other - also after the first has read it
+    for fields in instants(rng, 30):
+        off = rng.choice(all_offsets)
+        sp = rng.choice(offset_spellings(off))
+        dtext = render_dt(fields, rng.choice(["datetime", "ms", "offset", "offset-no-ms"]), sp, rng.choice(NAMES))
+        ttext = dtext[8:]
+        for (good, bad, text) in ((DT, TM, dtext), (TM, DT, ttext)):
+            try:
+                good.convert(text)
+            except Exception:
+                pass
+            try:
+                (R.parse_time if bad is TM else R.parse_datetime)(text)
+                continue  # the other notation happens to accept it too
+            except R.Unspecified:
+                continue
+            except R.Reject:
+                pass
+            check_reject(ctx, bad, text, "text-of-the-other-type", {"op": "reject-time" if bad is TM else "reject-dt", "text": text, "what": "text-of-the-other-type"})
+    # naive values are refused - incl. values whose tzinfo yields no offset (naive by Python's definition)
+    class NoOffset(datetime.tzinfo):
+        def utcoffset(self, dt):
+            return None if dt is None else datetime.timedelta(hours=-5)
+
+        def tzname(self, dt):
+            return "EST5EDT"
+
+        def dst(self, dt):
+            return None
+
+    class NeverOffset(datetime.tzinfo):
+        def utcoffset(self, dt):
+            return None
+
+        def tzname(self, dt):
+            return "X"
+
+        def dst(self, dt):
+            return None
+
+    for val, conv in ((datetime.time(17, 0, tzinfo=NoOffset()), TM), (datetime.time(1, 2, 3, tzinfo=NeverOffset()), TM), (datetime.datetime(2020, 1, 1, tzinfo=NeverOffset()), DT)):
+        ctx.ev()
+        ctx.count("naive_checked")
+        for op in ("unconvert", "convert"):
+            try:
+                r = getattr(conv, op)(val)
+            except Exception:
+                continue
+            ctx.violation(f"naive-accepted/{type(conv).__name__}.{op}", f"{op}({val!r}) -> {r!r} (utcoffset() is None: a naive value)", {"op": "naive-tz", "which": type(conv).__name__})
     for j in range(50):
         y, mo, d, h, mi, s, ms = rng.choice(instants(rng, 12))
         for conv, val in ((DT, datetime.datetime(y, mo, d, h, mi, s)), (TM, datetime.time(h, mi, s))):
